@@ -4,6 +4,7 @@ package storegw
 
 import (
 	"fmt"
+	"math/rand"
 	"testing"
 
 	"github.com/oklog/ulid/v2"
@@ -25,7 +26,8 @@ import (
 //	unit, base                  concretisation of the abstract grid
 //	order   permutation         order in which the blocks are add()ed
 //	churn   [[res, a, b], ...]  extra blocks that are added (interleaved) and removed again
-//	qs      [[mint, maxt, maxres], ...]   concrete queries (ms)
+//	gridqs, nq, qseed           the queries: every grid range x the three resolutions (gridqs) plus nq
+//	                            seeded off-grid ones (c15Queries)
 //
 // Layouts come from TLC (BlockSetMC: every multiset of <= 3 blocks on the grid) and from a seeded
 // random generator (bigger grids, up to 12 blocks). The queries of a TLC layout are all grid
@@ -34,55 +36,22 @@ import (
 func TestC15(t *testing.T) {
 	rnd := vt.Rand()
 	resVals := []int64{0, 300000, 3600000}
-	oddRes := []int64{0, 1, 299999, 300000, 300001, 3599999, 3600000, 3600001, 2000000000}
 	units := []int64{1, 1000, 7200000}
 	bases := func(u int64) int64 {
 		// TLC integers are 32 bit: keep every timestamp below 2^31
 		return []int64{0, 1000000000, -3 * u, 7}[rnd.Intn(4)]
 	}
-	offGrid := func(c vt.Case, g int, n int) [][]int64 {
-		u, b := vt.Int64(c["unit"]), vt.Int64(c["base"])
-		var qs [][]int64
-		for i := 0; i < n; i++ {
-			p := func() int64 {
-				v := b + int64(rnd.Intn(g+3)-1)*u
-				if u > 1 {
-					v += int64(rnd.Intn(3) - 1)
-				} else if rnd.Intn(4) == 0 {
-					v += int64(rnd.Intn(3) - 1)
-				}
-				return v
-			}
-			m, x := p(), p()
-			if m > x && rnd.Intn(8) != 0 { // mostly non-empty ranges, some empty ones
-				m, x = x, m
-			}
-			qs = append(qs, []int64{m, x, oddRes[rnd.Intn(len(oddRes))]})
-		}
-		return qs
-	}
 	gen := func(yield func(vt.Case)) {
 		for _, c := range vt.TLCCases(t) {
-			g := vt.Int(c["g"])
 			u := units[rnd.Intn(len(units))]
 			c["unit"], c["base"] = u, bases(u)
 			n := len(vt.List(c["blocks"]))
 			c["order"] = rnd.Perm(n)
 			c["churn"] = [][]int64{}
-			var qs [][]int64
-			b := vt.Int64(c["base"])
-			for m := 0; m <= g; m++ {
-				for x := m; x <= g; x++ {
-					for _, r := range resVals {
-						qs = append(qs, []int64{b + int64(m)*u, b + int64(x)*u, r})
-					}
-				}
-			}
-			qs = append(qs, offGrid(c, g, 8)...)
-			c["qs"] = qs
+			c["gridqs"], c["nq"], c["qseed"] = true, 8, rnd.Int63n(1<<30)
 			yield(c)
 		}
-		nr := vt.Pick(300, 6000)
+		nr := vt.Pick(300, 2500)
 		for i := 0; i < nr; i++ {
 			g := 4 + rnd.Intn(28)
 			nb := rnd.Intn(13)
@@ -102,9 +71,8 @@ func TestC15(t *testing.T) {
 				churn[k] = []int64{resVals[rnd.Intn(3)], int64(a), int64(a + 1 + rnd.Intn(g-a))}
 			}
 			u := units[rnd.Intn(len(units))]
-			c := vt.Case{"g": g, "blocks": blocks, "unit": u, "base": bases(u), "order": rnd.Perm(nb), "churn": churn}
-			c["qs"] = offGrid(vt.Normalize(c), g, 40)
-			yield(c)
+			yield(vt.Case{"g": g, "blocks": blocks, "unit": u, "base": bases(u), "order": rnd.Perm(nb), "churn": churn,
+				"gridqs": false, "nq": 40, "qseed": rnd.Int63n(1 << 30)})
 		}
 	}
 	kf := func(c vt.Case) string { return "" }
@@ -126,13 +94,13 @@ func TestC15(t *testing.T) {
 		blocks := vt.List(c["blocks"])
 		churn := vt.List(c["churn"])
 		idOf := map[ulid.ULID]int{}
-		evBlocks := make([]map[string]any, 0, len(blocks))
+		evBlocks := make([][]int64, 0, len(blocks)) // [id, res, min, max] as given to add()
 		metas := make([]*metadata.Meta, len(blocks))
 		for k, b := range blocks {
 			m := mk(k+1, vt.List(b))
 			metas[k] = m
 			idOf[m.ULID] = k + 1
-			evBlocks = append(evBlocks, map[string]any{"id": k + 1, "res": m.Thanos.Downsample.Resolution, "min": m.MinTime, "max": m.MaxTime})
+			evBlocks = append(evBlocks, []int64{int64(k + 1), m.Thanos.Downsample.Resolution, m.MinTime, m.MaxTime})
 		}
 		churnMetas := make([]*metadata.Meta, len(churn))
 		for k, b := range churn {
@@ -161,17 +129,18 @@ func TestC15(t *testing.T) {
 			set.Remove(m.ULID)
 		}
 		ev["adderr"] = addErr
-		qs := vt.List(c["qs"])
-		out := make([]map[string]any, 0, len(qs))
-		for _, qa := range qs {
-			q := vt.List(qa)
-			mint, maxt, maxres := vt.Int64(q[0]), vt.Int64(q[1]), vt.Int64(q[2])
-			o := map[string]any{"mint": mint, "maxt": maxt, "maxres": maxres, "ok": true, "sel": []int{}}
+		// one entry per getFor call: [mint, maxt, maxres, ok (1, or 0 = panic), [selected ids]]
+		qs := c15Queries(c)
+		out := make([][]any, 0, len(qs))
+		panics := []string{}
+		for _, q := range qs {
+			mint, maxt, maxres := q[0], q[1], q[2]
+			o := []any{mint, maxt, maxres, 1, []int{}}
 			func() {
 				defer func() {
 					if r := recover(); r != nil {
-						o["ok"] = false
-						o["msg"] = fmt.Sprint(r)
+						o[3] = 0
+						panics = append(panics, fmt.Sprint(r))
 					}
 				}()
 				ids := set.GetFor(mint, maxt, maxres)
@@ -183,11 +152,48 @@ func TestC15(t *testing.T) {
 					}
 					sel = append(sel, n)
 				}
-				o["sel"] = sel
+				o[4] = sel
 			}()
 			out = append(out, o)
 		}
-		ev["qs"] = out
+		ev["calls"] = out
+		ev["panics"] = panics
 		return ev
 	})
+}
+
+// c15Queries derives the queries of a case from its input alone (so a replay re-runs the same
+// calls): all ranges between grid points x {raw, 5m, 1h} when gridqs is set, plus nq seeded
+// queries whose ends lie on or 1 ms beside grid points (from one unit before the grid to one
+// after) with resolutions on and beside the three levels; about 1 in 16 has mint > maxt.
+func c15Queries(c vt.Case) [][]int64 {
+	resVals := []int64{0, 300000, 3600000}
+	oddRes := []int64{0, 1, 299999, 300000, 300001, 3599999, 3600000, 3600001, 2000000000}
+	g, u, b := vt.Int(c["g"]), vt.Int64(c["unit"]), vt.Int64(c["base"])
+	var qs [][]int64
+	if vt.Bool(c["gridqs"]) {
+		for m := 0; m <= g; m++ {
+			for x := m; x <= g; x++ {
+				for _, r := range resVals {
+					qs = append(qs, []int64{b + int64(m)*u, b + int64(x)*u, r})
+				}
+			}
+		}
+	}
+	rnd := rand.New(rand.NewSource(vt.Int64(c["qseed"])))
+	for i := 0; i < vt.Int(c["nq"]); i++ {
+		p := func() int64 {
+			v := b + int64(rnd.Intn(g+3)-1)*u
+			if u > 1 || rnd.Intn(4) == 0 {
+				v += int64(rnd.Intn(3) - 1)
+			}
+			return v
+		}
+		m, x := p(), p()
+		if m > x && rnd.Intn(8) != 0 {
+			m, x = x, m
+		}
+		qs = append(qs, []int64{m, x, oddRes[rnd.Intn(len(oddRes))]})
+	}
+	return qs
 }
